@@ -41,6 +41,7 @@ from pydiverse.transform._internal.pipe.pipeable import (
 from pydiverse.transform._internal.pipe.table import Table
 from pydiverse.transform._internal.tree import types
 from pydiverse.transform._internal.tree.col_expr import (
+    CaseExpr,
     Col,
     ColExpr,
     ColFn,
@@ -1656,6 +1657,11 @@ def preprocess_arg(arg: ColExpr, table: Table, *, agg_is_window: bool = True) ->
                 eval_aligned=eval_aligned | isinstance(expr, EvalAligned),
             )
         )
+        if isinstance(new, ColFn | CaseExpr):
+            # The types were computed with the types the column references had when the
+            # expression was built; the table may know other types (see above).
+            new._dtype = None
+            new._ftype = None
 
         # add casts for boolean add / sum
         # If we have more operations like these, which we want to map to other
